@@ -13,6 +13,7 @@ func init() {
 	vfHarnesses["C11_range_search"] = vfhC11RangeSearch
 	vfHarnesses["C11_range_search_5"] = vfhC11RangeSearch5
 	vfHarnesses["C11_stop_two_level"] = vfhC11StopTwoLevel
+	vfHarnesses["C11_priority_search"] = vfhC11PrioritySearch
 	vfHarnesses["C11_bulk_shape"] = vfhC11BulkShape
 }
 
@@ -212,5 +213,60 @@ func vfhC11StopTwoLevel() {
 	if stopped {
 		vfReach("stopped")
 	}
+	vfReach("end")
+}
+
+// C11: PrioritySearch / Nearest on a single-leaf tree (n <= 3) with a scripted
+// callback: every record exactly once until the first non-nil return, never
+// again afterwards; Stop and wrapped Stop give nil, other errors are returned
+// unchanged; Nearest reports emptiness correctly.
+func vfhC11PrioritySearch() {
+	n := vfInt("n", 0, 3)
+	items := make([]BulkItem, n)
+	for i := range items {
+		items[i] = BulkItem{Box: vfBoxL("b"), RecordID: i}
+	}
+	q := vfBoxL("q")
+	t := BulkLoad(items)
+	seen := make([]int, n)
+	stopped := false
+	how := 0
+	err := t.PrioritySearch(q, func(id int) error {
+		vfAssert(!stopped, "callback invoked again after it returned Stop or an error")
+		vfAssert(id >= 0 && id < n, "record id is one of the loaded ids")
+		seen[id]++
+		how = vfInt("cb", 0, 3)
+		switch how {
+		case 1:
+			stopped = true
+			return Stop
+		case 2:
+			stopped = true
+			return fmt.Errorf("wrapped: %w", Stop)
+		case 3:
+			stopped = true
+			return vfErrOther
+		}
+		return nil
+	})
+	for i := range seen {
+		if stopped {
+			vfAssert(seen[i] <= 1, "at most once")
+		} else {
+			vfAssert(seen[i] == 1, "every record exactly once")
+		}
+	}
+	switch {
+	case !stopped, how == 1, how == 2:
+		vfAssert(err == nil, "nil after completion, Stop or wrapped Stop")
+	default:
+		vfAssert(err == vfErrOther, "other errors are returned unchanged")
+		vfReach("other-error")
+	}
+	if stopped {
+		vfReach("stopped")
+	}
+	_, found := t.Nearest(q)
+	vfAssert(found == (n > 0), "Nearest reports an empty tree")
 	vfReach("end")
 }
